@@ -69,7 +69,9 @@ void parallel_for_staticImpl(
     ssize_t maxThreads,
     bool wait,
     bool reuseExistingState,
-    uint32_t granularity = 1) {
+    uint32_t granularity = 1,
+    bool tailInTask = false,
+    IntegerT tailEnd = IntegerT{}) {
   using size_type = typename ChunkedRange<IntegerT>::size_type;
 
   size_type numThreads = std::min<size_type>(taskSet.numPoolThreads() + 1, maxThreads);
@@ -132,9 +134,15 @@ void parallel_for_staticImpl(
       auto stateIt = states.begin();
       std::advance(stateIt, static_cast<ptrdiff_t>(chunkIdx));
 
-      return [it = stateIt, start, end, f]() {
+      // With wait=false nobody can run the sub-granularity tail "after" the parallel portion, so
+      // the task that owns the first state object runs it right after its own chunk.
+      bool runTail = tailInTask && chunkIdx == 0;
+      return [it = stateIt, start, end, f, runTail, tailStart = range.end, tailEnd]() {
         auto recurseInfo = detail::PerPoolPerThreadInfo::parForRecurse();
         f(*it, start, end);
+        if (runTail) {
+          f(*it, tailStart, tailEnd);
+        }
       };
     });
   }
